@@ -211,7 +211,7 @@ fn check_spec(rep: &Report, scratch: &Scratch, sp: &PSpec) {
                 shell_cmd: String::new(),
                 inputs: inputs.clone(),
                 recursive,
-                num_threads: 6,
+                num_threads: 1,
                 mode: mode.clone(),
                 verbosity: Verbosity::Quiet,
                 trailing_newline: true,
